@@ -2,3 +2,4 @@
 pub mod tokenizer;
 pub mod dom;
 pub mod treebuilder;
+pub mod metacharset;
